@@ -30,6 +30,8 @@ REQUIRED_COUNTERS = ['cells_checked', 'bad_cells_expected']
 TYPES = {
     'integer': ({'type': 'integer'}, ['1', '-5', '007', ' 4', '0', 'x', '1.5', '', 'NaN', '1e3']),
     'number_comma': ({'type': 'number', 'decimalChar': ','}, ['1,5', '3', '-0,25', 'x', '1,2,3', '', '1e3']),
+    # a field of type any: nothing to reject, but the schema's missing-value markers still stand for null
+    'any_plain': ({'type': 'any'}, ['x', 'n/a', '', '5', 'abc', 'n/a']),
     # options whose value is falsy are options all the same
     'number_not_bare': ({'type': 'number', 'bareNumber': False}, ['$1.5', '3 kg', '1.5', 'x', '', '-2 EUR']),
     'integer_not_bare': ({'type': 'integer', 'bareNumber': False}, ['12 %', 'EUR 7', '5', 'x', '']),
@@ -390,7 +392,7 @@ def run_case(case):
     # ---------------- oracle -------------------------------------------------------------------
     # the schema declares markers of its own for missing values ('n/a'): such a cell is null - it conforms to any type
     own_missing = form in ('set_type', 'validate_schema') and \
-        boot.rng(case['seed'], 'C14', 'missing', case['idx']).random() < 0.15
+        boot.rng(case['seed'], 'C14', 'missing', case['idx']).random() < (0.6 if 'any_plain' in tkeys else 0.15)
     if own_missing:
         steps_pre.append(d.update_schema(None, missingValues=['', 'n/a']))
         for rn in res_names:
